@@ -234,6 +234,8 @@ bool StepScript(InterpreterEnv& env)
     }
 
     if (env.successor_script.size()) {
+        if (env.successor_script.size() > MAX_SCRIPT_SIZE)
+            return set_error(serror, SCRIPT_ERR_SCRIPT_SIZE);
         script = env.successor_script;
         env.successor_script.clear();
         pc = env.pbegincodehash = script.begin();
